@@ -18,6 +18,18 @@ CLAIMS = {
         technique="static analysis: difference-bound abstract interpretation + typestate + table checks over the "
                   "exported clang AST/CFG",
         ref="DESIGN.md section 4 C01"),
+    "C04": dict(
+        text="Static analysis, partial: operator ranks vs the precedence groups parsed on every run from "
+             "Documentation/Template.md; anchored rank comparisons of evaluate(); symbol->operator map of getOperation "
+             "and operator->arithmetic dispatch of evaluateExpression arm by arm; every integer / and % in "
+             "QExpression.hpp/Template.hpp has a non-zero constant divisor or a local divisor proven != 0 and != -1 by "
+             "dominating tests (must-fact dataflow over the CFG); Division/Remainder arms return 'no value' under a "
+             "typed zero test; relational operators promote integers to double (never truncate the real side) and "
+             "are mirror images. Necessary structural conditions only: arithmetic results and the precedence-climbing "
+             "loop itself are not decided.",
+        note=TRUST + "Operator tables in rules/C04.py; the documentation section is the oracle for ranks.",
+        technique="static analysis: enum/dispatch table checks, CFG must-facts for division guards, sibling comparison",
+        ref="DESIGN.md section 4 C04"),
     "C05": dict(
         text="Static analysis, partial: difference-bound abstract interpretation (E-ZONE) over the clang CFG of the "
              "uninstantiated JSON parser, UnEscape and number scanner proves every raw read of the input buffer in "
